@@ -213,11 +213,27 @@ def _binop_order(ctx, vu, fn):
     raise AnalysisError("_call_binop_on_bindings: the loop that looks the operator "
                         "methods up was not found")
   loop = loops[0]
+  lp = U.ListPaths(vu)
   try:
-    results = U.ListPaths(vu).at_loop(fn, loop)
+    results = lp.at_loop(fn, loop)
   except U.NotUnderstood as e:
     raise AnalysisError(f"_call_binop_on_bindings: the list of operand orders is built "
                         f"in a way that is not understood: {e}") from e
+  if lp.records:
+    # the options are module-local records (dataclass / NamedTuple) instead of
+    # tuples: a record is the tuple of its fields in declaration order, provided
+    # the loop's get_attribute call shows which field is the receiver and which the method
+    if len(lp.records) != 1:
+      raise AnalysisError("_call_binop_on_bindings: the options are records of several "
+                          f"classes {sorted(lp.records)}")
+    roles = U.record_loop_roles(loop, list(lp.records.values())[0])
+    if isinstance(roles, str):
+      raise AnalysisError("_call_binop_on_bindings: the options are "
+                          f"{sorted(lp.records)[0]} records but {roles}")
+    results = [(path, ("list", tuple(("tuple", tuple(it[1][i] for i in roles))
+                                     if it[0] == "tuple" and len(it[1]) == 3 else it
+                                     for it in val[1])) if val[0] == "list" else val)
+               for path, val in results]
   if not results:
     raise AnalysisError("_call_binop_on_bindings: no path reaches the dispatch loop")
   fwd, refl = (x_p, y_p, name_p), (y_p, x_p, r_v)
@@ -914,6 +930,30 @@ def _order_helper(ov_ret="[reflected, forward]", default="[forward, reflected]",
        "def _call_binop_on_bindings(node, name, xval, yval, ctx):\n")]
 
 
+def _record_form(first="receiver=xval, operand=yval, method=name",
+                 refl="receiver=yval, operand=xval, method=rname",
+                 fields=("receiver", "operand", "method"),
+                 lookup="attempt.receiver.data, attempt.method",
+                 cond="rname and xval.data.cls != yval.data.cls"):
+  """The (left, right, method) tuples as a module-local frozen dataclass
+  (the shape of benign/C14-b3r1), with room for a defect."""
+  vu = "pytype/vm_utils.py"
+  return [
+      (vu, "def _call_binop_on_bindings(node, name, xval, yval, ctx):\n",
+       "@dataclasses.dataclass(frozen=True)\nclass _BinopAttempt:\n"
+       + "".join(f"  {f}: {t}\n" for f, t in zip(fields, ("cfg.Binding", "cfg.Binding", "str")))
+       + "\n\ndef _call_binop_on_bindings(node, name, xval, yval, ctx):\n"),
+      (vu, "  options = [(xval, yval, name)]\n", f"  options = [_BinopAttempt({first})]\n"),
+      (vu, "  if rname and xval.data.cls != yval.data.cls:\n", f"  if {cond}:\n"),
+      (vu, "    options.append((yval, xval, rname))\n",
+       f"    options.append(_BinopAttempt({refl}))\n"),
+      (vu, "  for left_val, right_val, attr_name in options:\n",
+       "  for attempt in options:\n"
+       "    left_val, right_val, attr_name = attempt.receiver, attempt.operand, attempt.method\n"),
+      (vu, "        node, left_val.data, attr_name, valself\n",
+       f"        node, {lookup}, valself\n")]
+
+
 B = stubs.BUILTINS
 _KEY_TODAY = '    key = ("constant", pyval, _type_key(pyval))\n'
 _TUPLE_ARM_TODAY = "    return (tuple, tuple(_type_key(v) for v in pyval))\n"
@@ -972,6 +1012,30 @@ VARIANTS = [
      "patch": "benign/C06-r3/patch.diff", "expect": "silent"},
     {"name": "twin-dispatch-order-helper", "rule": "R14.3", "expect": "silent",
      "edits": _order_helper()},
+    # the tuples as a module-local frozen dataclass (benign/C14-b3r1)
+    {"name": "twin-benign-C14-b3r1-attempt-records", "rule": "R14.3",
+     "patch": "benign/C14-b3r1/patch.diff", "expect": "silent"},
+    {"name": "twin-attempt-records", "rule": "R14.3", "expect": "silent", "edits": _record_form()},
+    {"name": "twin-attempt-records-positional", "rule": "R14.3", "expect": "silent",
+     "edits": _record_form(first="xval, yval, name", refl="yval, xval, method=rname")},
+    {"name": "attempt-records-reflected-operands-not-swapped", "rule": "R14.3", "expect": "fire",
+     "edits": _record_form(refl="receiver=xval, operand=yval, method=rname")},
+    {"name": "attempt-records-positional-reflected-not-swapped", "rule": "R14.3", "expect": "fire",
+     "edits": _record_form(refl="xval, yval, rname")},
+    {"name": "attempt-records-reflected-for-same-class", "rule": "R14.3", "expect": "fire",
+     "edits": _record_form(cond="rname")},
+    # positional arguments fill the fields in declaration order: against
+    # (operand, receiver, method) the method is looked up on the wrong operand
+    {"name": "attempt-records-fields-declared-operand-first", "rule": "R14.3", "expect": "fire",
+     "edits": _record_form(first="xval, yval, name", refl="yval, xval, rname",
+                           fields=("operand", "receiver", "method"))},
+    # the loop looks the method up on the other field
+    {"name": "attempt-records-lookup-on-operand", "rule": "R14.3", "expect": "fire",
+     "edits": _record_form(lookup="attempt.operand.data, attempt.method")},
+    {"name": "twin-attempt-records-declared-operand-first-by-keyword", "rule": "R14.3",
+     "expect": "silent", "edits": _record_form(fields=("operand", "receiver", "method"))},
+    {"name": "attempt-records-lookup-not-on-a-field", "rule": "R14.3", "expect": "error",
+     "edits": _record_form(lookup="xval.data, attempt.method")},
     {"name": "order-helper-never-reflects-first", "rule": "R14.3", "expect": "fire",
      "edits": _order_helper(ov_ret="[forward, reflected]")},
     {"name": "order-helper-reflects-first-by-default", "rule": "R14.3", "expect": "fire",
@@ -1146,4 +1210,25 @@ ASSUMPTIONS += [
     "executed (vm.VirtualMachine.current_opcode, state.Frame.current_opcode); "
     "Opcode.index is unique within one code object and Opcode.code is the "
     "code object it belongs to",
+]
+
+EXPLANATION += (
+    "\n\nR14.3 / R14.22 / R14.23, options as records: the (left, right, method) "
+    "options the dispatch loop walks may be instances of a module-local record "
+    "class - a @dataclasses.dataclass class without bases or a direct "
+    "typing.NamedTuple subclass whose generated constructor takes exactly its "
+    "annotated fields (rules/_util_c16c19.record_fields) - constructed "
+    "positionally or by keyword.  A record is read as the tuple of its fields; "
+    "which field is the receiver, which the method name and which the other "
+    "operand is decided by use, not by spelling: the loop's single "
+    "get_attribute call must look `t.<method field>` up on `t.<receiver "
+    "field>.data` (record_loop_roles), anything else is an AnalysisError.  "
+    "Positional arguments fill the fields in declaration order, so a class "
+    "declaring (operand, receiver, method) and built positionally fires."
+)
+ASSUMPTIONS += [
+    "R14.3/R14.22 (records): a class decorated with dataclasses.dataclass / "
+    "deriving typing.NamedTuple that defines no __init__/__new__/__post_init__ "
+    "has the generated constructor (fields in declaration order, by position or "
+    "keyword) and attribute reads return the constructor arguments",
 ]
